@@ -63,10 +63,11 @@ def _spec(draw):
                 scale = base['kind'] in ('gauss', 'lognorm', 'trunc') and p == 1
                 th.append(0 if scale else draw(st.sampled_from([-1, 1, 2])))
         theta, int_theta = th, True
-        if base['kind'] in ('pooled', 'hetero', 'trunc'):
-            # keep the shifted values positive: covariates in [-0.45, 0.45] per coefficient
-            cov = [[gen.r6(0.45 * v / (2.0 * n_cov)) for v in row] for row in cov] if max(
-                abs(v) for row in cov for v in row) <= 2.0 else cov
+        # whole-number coefficients: the covariates are brought to the scale [-0.45, 0.45] / n_cov (whatever unit
+        # they were drawn in), so that every shifted value stays inside the support and of ordinary size
+        mx = max(abs(v) for row in cov for v in row)
+        if mx > 0:
+            cov = [[gen.r6(0.45 * (v / mx) / n_cov) for v in row] for row in cov]
     z = draw(gen.mat(gen.real(-3, 3), n_ids, base['n_dim']))
     U = draw(gen.mat(gen.real(-3, 3), n_ids, base['n_dim'])) if gen.chance(draw, 0.5) else None
     oor = None
